@@ -114,6 +114,28 @@ def dateF : List PyKey → Int × Int × Bool
   | [.datetime i off, _] => (i + off, off, false)
   | _ => (0, 0, false)
 
+/-! ## The caching loaders' key (`CachingLoaderMixin.cache_key`) -/
+
+/-- the namespace of a request: absent (no such keyword argument and no such context global), or present with the
+    text `f"{value}"` (`0 → "0"`, `"" → ""`, `False → "False"`, `None → "None"`) -/
+inductive Ns
+  | absent
+  | val (s : String)
+  deriving DecidableEq, Repr
+
+structure LReq where
+  ns : Ns
+  name : String
+  deriving DecidableEq, Repr
+
+/-- `cache_key(name, context, args)`: without a `namespace_key` the name; with one, `f"{namespace}/{name}"` when the
+    request carries the namespace — **whatever its truth value** — else the name -/
+def cacheKey (nsKeySet : Bool) (r : LReq) : String :=
+  if !nsKeySet then r.name else
+  match r.ns with
+  | .absent => r.name
+  | .val s => s ++ "/" ++ r.name
+
 /-! ## The process -/
 
 structure Proc (Lx Ps : Type) where
